@@ -245,31 +245,6 @@ theorem geti2_accept_spec (a b : List ℚ) (hl : a.length = b.length) :
 
 /-! ## the truncation rule of the power series (`expmint_pow`, `getEPQ_pow`) -/
 
-theorem powRun_stops (X : QMat) (tol : ℚ) (M : ℕ) :
-    ∀ (f : ℕ) (st : PowState), M ≤ st.j + f →
-      powCont tol M (powRun X tol M f st) = false ∧ st.j ≤ (powRun X tol M f st).j := by
-  intro f
-  induction f with
-  | zero =>
-    intro st h
-    simp only [powRun]
-    refine ⟨?_, le_refl _⟩
-    unfold powCont
-    have : ¬ st.j < M := by omega
-    simp [this]
-  | succ f ih =>
-    intro st h
-    unfold powRun
-    by_cases hc : powCont tol M st = true
-    · rw [if_pos hc]
-      have := ih (powStep X st) (by simp only [powStep]; omega)
-      refine ⟨this.1, ?_⟩
-      have h2 := this.2
-      simp only [powStep] at h2 ⊢
-      omega
-    · rw [if_neg hc]
-      exact ⟨by simpa using hc, le_refl _⟩
-
 /-- `expmint_pow` leaves its loop exactly when the last term is below `tol·max|E|` of the running sum
 or `j` reached `maxloops` (then `RuntimeError`): the final state fails the loop condition, with the
 regenerated constants `tol = 1e-15`, `maxloops = 200`; the sums hold `j` terms (never fewer than one) -/
